@@ -355,18 +355,23 @@ var hangAfter = func() time.Duration {
 func startWatchdog(j *journal) {
 	go func() {
 		last := atomic.LoadUint64(&progress)
-		lastChange := time.Now()
 		parent := os.Getppid()
 		samples := []metrics.Sample{{Name: "/memory/classes/heap/objects:bytes"}}
+		// A hang is counted in watchdog ticks without progress, not in wall-clock time: when the
+		// whole machine is frozen for a while (a snapshot of the VM, a suspended container) the
+		// clock jumps but only one tick passes, and that must not look like a hung call.
+		const tick = 50 * time.Millisecond
+		need := int(hangAfter / tick)
+		stalled := 0
 		for {
-			time.Sleep(50 * time.Millisecond)
+			time.Sleep(tick)
 			if os.Getppid() != parent {
 				os.Exit(3) // the process that started us is gone: nobody reads our result
 			}
 			cur := atomic.LoadUint64(&progress)
 			if cur != last {
-				last, lastChange = cur, time.Now()
-			} else if time.Since(lastChange) > hangAfter {
+				last, stalled = cur, 0
+			} else if stalled++; stalled >= need {
 				if j != nil {
 					j.setStatus("HANG")
 				}
@@ -963,6 +968,7 @@ func Check(propID, tier string) int {
 		wave = append(wave, pr)
 	}
 	fatalBudget := 40                      // confirmations of process deaths per batch
+	unreproduced := 0
 	confirmedDeaths := map[string]string{} // exit code + journal status + call -> confirmed signature
 	for len(wave) > 0 {
 		for _, pr := range wave {
@@ -1024,8 +1030,26 @@ func Check(propID, tier string) int {
 			fmt.Printf("worker %d died (exit %d) in run %d step %d call %q; confirming in a fresh process\n", w, code, js.Run, js.Step, js.Call)
 			v, fatal := runIsolated(p, script, tmp)
 			if v == nil || !strings.HasPrefix(v.Sig, "fatal:") {
-				fmt.Fprintf(os.Stderr, "worker %d death in run %d did not reproduce as fatal (got %v):\n%s\n", w, js.Run, v, tail(pr.stderr.String(), 30))
-				infra = true
+				// The same script runs to its end in a fresh process: whatever stopped the worker
+				// (the machine frozen under it, a kill from outside) was not the code under test
+				// and is not reportable. Carry on from its checkpoint; give up (exit 2) only if
+				// it keeps happening.
+				fmt.Fprintf(os.Stderr, "worker %d death in run %d did not reproduce in a fresh process (got %v); restarting it:\n%s\n", w, js.Run, v, tail(pr.stderr.String(), 6))
+				unreproduced++
+				merged.Stats.Units["worker_deaths_not_reproduced"]++
+				from := pr.start
+				if r, ok := mergeResult(pr.out); ok && r.NextIdx > from {
+					from = r.NextIdx
+				}
+				if unreproduced > 3 {
+					infra = true
+					continue
+				}
+				if np, err := launch(w, from, pr.gen+1); err == nil {
+					next = append(next, np)
+				} else {
+					infra = true
+				}
 				continue
 			}
 			if old := merged.Found[v.Sig]; old != nil {
